@@ -587,6 +587,23 @@ func sameSnap(a, b snapshot) bool {
 // monitorReal checks the property clauses for a confirmed (non-dry) delete that the handler reported as done.
 func (e *env) monitorReal(where string, r delResp, before snapshot, pv map[string][]int, after snapshot, replay string) {
 	for f, rows := range before {
+		nTrue := 0
+		for _, v := range pv[f] {
+			if v == 1 {
+				nTrue++
+			}
+		}
+		if aft, ok := after[f]; nTrue == 0 && (!ok || encRows(aft) != encRows(rows)) {
+			e.c.Fail("unaffected-file-changed:countMatchingRowsInFiles", fmt.Sprintf("file %s holds no row matching WHERE %s but was %s by the delete", f, where, map[bool]string{true: "rewritten", false: "removed"}[ok]), replay)
+		}
+		if _, ok := after[f]; nTrue > 0 && nTrue == len(rows) && ok {
+			e.c.Tag("del:real:whole-file-kept-as-empty")
+		}
+		if nTrue > 0 && nTrue == len(rows) {
+			e.c.Tag("del:real:whole-file")
+		} else if nTrue > 0 {
+			e.c.Tag("del:real:partial-file")
+		}
 		present := map[string]int{}
 		for _, x := range after[f] {
 			present[x.enc()]++
@@ -712,29 +729,59 @@ func (e *env) runCase(files map[string][]row, order []string, reqs []delReq, tag
 			e.c.Tag("pred:" + k)
 		}
 	}
+	seen := map[string]bool{}
+	for _, f := range order {
+		if b := filepath.Base(f); seen[b] {
+			e.c.Tag("layout:same-basename-in-several-partitions")
+			break
+		} else {
+			seen[b] = true
+		}
+	}
 	e.c.Tag("case:" + tag)
 	e.c.Case(canon.String(), nontriv)
 }
 
 // ---------------------------------------------------------------- main
 
-func genDataset(r *vh.Rand, rid *int64) (map[string][]row, []string) {
-	nf := r.Range(1, 4)
+// genDataset: 1–5 files over hour partitions. Base names come from a tiny pool so the SAME base name
+// regularly occurs in several partition directories (arc's writers name files per partition, not
+// globally); `homog` datasets give every file one constant value in columns i/s/b so that
+// predicates on those columns select WHOLE files (whole-file removal next to partial rewrites).
+func genDataset(r *vh.Rand, rid *int64) (map[string][]row, []string, bool) {
+	nf := r.Range(1, 5)
 	files := map[string][]row{}
 	var order []string
 	nullPct := vh.Pick(r, []int{0, 15, 30, 50})
+	homog := r.Chance(45)
+	names := []string{"data.parquet", "data.parquet", "f0.parquet", "m_compacted.parquet"}
 	for k := 0; k < nf; k++ {
-		name := fmt.Sprintf("2024/01/01/%02d/f%d.parquet", r.Intn(3), k)
-		if r.Chance(15) {
-			name = fmt.Sprintf("2024/01/01/f%d_compacted.parquet", k)
+		var name string
+		for try := 0; ; try++ {
+			name = fmt.Sprintf("2024/01/%02d/%02d/%s", 1+r.Intn(2), r.Intn(4), vh.Pick(r, names))
+			if r.Chance(12) {
+				name = fmt.Sprintf("2024/01/%02d/%s", 1+r.Intn(2), vh.Pick(r, names))
+			}
+			if _, dup := files[name]; !dup {
+				break
+			}
+			if try > 20 {
+				name = fmt.Sprintf("2024/01/03/%02d/f%d.parquet", k, k)
+				break
+			}
 		}
 		nr := r.Range(0, 6)
 		var rows []row
+		fi, fs, fb := genCell(r, 'i', 0), genCell(r, 's', 0), genCell(r, 'b', 0)
+		partial := r.Chance(35) // a homogeneous file with a few deviating rows => partial rewrite
 		for j := 0; j < nr; j++ {
 			*rid++
 			rw := row{{k: 'i', n: *rid}}
 			for c := 1; c < len(colKinds); c++ {
 				rw = append(rw, genCell(r, colKinds[c], nullPct))
+			}
+			if homog && !(partial && r.Chance(40)) {
+				rw[2], rw[4], rw[5] = fi, fs, fb
 			}
 			rows = append(rows, rw)
 		}
@@ -742,7 +789,34 @@ func genDataset(r *vh.Rand, rid *int64) (map[string][]row, []string) {
 		order = append(order, name)
 	}
 	sort.Strings(order)
-	return files, order
+	return files, order, homog
+}
+
+// genWholeFilePred: a predicate built from the constant values of some files of a homogeneous
+// dataset, so it is TRUE on every row of those files.
+func genWholeFilePred(r *vh.Rand, files map[string][]row, order []string) *pred {
+	var lits []cell
+	col := vh.Pick(r, []int{2, 4})
+	for _, f := range order {
+		if len(files[f]) > 0 && r.Chance(50) {
+			lits = append(lits, files[f][0][col])
+		}
+	}
+	if len(lits) == 0 {
+		for _, f := range order {
+			if len(files[f]) > 0 {
+				lits = append(lits, files[f][0][col])
+				break
+			}
+		}
+	}
+	if len(lits) == 0 {
+		return genPred(r, 1)
+	}
+	if len(lits) == 1 && r.Bool() {
+		return &pred{op: "cmp", cmp: "eq", col: col, lit: lits[0]}
+	}
+	return &pred{op: "in", col: col, lits: lits}
 }
 
 func main() {
@@ -795,6 +869,22 @@ func main() {
 	for _, ed := range edge {
 		e.runCase(ed.data, one, []delReq{{true, false, big, big, ed.p}, {false, false, big, big, ed.p}, {false, true, big, big, ed.p}}, ed.tag)
 	}
+	// same base name in several hour partitions; the predicate selects every row of ONE of the files
+	// (whole-file removal), of an earlier / a later / the middle one, next to a partial rewrite.
+	{
+		ri := func(rid, i int64) row { return row{I(rid), T(0), I(i), F(2), S("ab"), B(1)} }
+		for k, sel := range []int64{10, 20, 30} {
+			data := map[string][]row{
+				"2024/01/01/00/data.parquet": {ri(1, 10), ri(2, 10)},
+				"2024/01/01/01/data.parquet": {ri(3, 20), ri(4, 20), ri(5, 20)},
+				"2024/01/01/02/data.parquet": {ri(6, 30)},
+				"2024/01/02/00/data.parquet": {ri(7, sel), ri(8, 99)},
+			}
+			order := []string{"2024/01/01/00/data.parquet", "2024/01/01/01/data.parquet", "2024/01/01/02/data.parquet", "2024/01/02/00/data.parquet"}
+			p := &pred{op: "cmp", cmp: "eq", col: 2, lit: I(sel)}
+			e.runCase(data, order, []delReq{{true, false, big, big, p}, {false, true, big, big, p}}, fmt.Sprintf("edge:same-basename-%d", k))
+		}
+	}
 	// gates: max rows, confirmation threshold
 	{
 		data := mk(r3(1, I(5)), r3(2, I(6)), r3(3, I(0)))
@@ -808,11 +898,14 @@ func main() {
 	// (2) random datasets × predicates; each: dry run, confirmed delete, sometimes a follow-up delete.
 	var rid int64 = 100
 	for k := 0; k < n; k++ {
-		files, order := genDataset(r, &rid)
+		files, order, homog := genDataset(r, &rid)
 		var reqs []delReq
 		nd := r.Range(1, 2)
 		for j := 0; j < nd; j++ {
 			p := genPred(r, r.Range(0, 3))
+			if homog && r.Chance(70) {
+				p = genWholeFilePred(r, files, order)
+			}
 			max, thr := big, big
 			if r.Chance(8) {
 				max = r.Range(0, 3)
